@@ -67,3 +67,7 @@ CLAIMS["C03"] = dict(level="exploration",
     technique="exhaustive enumeration of predefined parrots x SNI shapes x connections against an independent reference encoder of the parrot's ClientHelloSpec",
     text="For every predefined parrot the wire hello is compared with a reference encoding (written from the RFCs) of a second UTLSIdToSpec call: legacy version, suites, compression, extension sequence (multiset and fixed positions for shuffling parrots) and every extension body, per-connection material masked.",
     note="Shuffle permutations are observed over enumerated connections rather than enumerated decision by decision; padding presence is C05's subject.")
+CLAIMS["C01"] = dict(level="model_checking",
+    technique="exhaustive enumeration of all mutator sequences up to depth 2 (3) between BuildHandshakeState and Handshake x clients x {plain, HRR} servers on the real client, comparing wire bytes with Hello.Raw at first write and after the handshake",
+    text="Every sequence of documented mutators up to the depth bound is applied to every non-Golang client; the first ClientHello on the wire must equal Hello.Raw read at the first write, the last edit of each field must be visible to the strict parser, and after Handshake Hello.Raw must equal the last ClientHello sent (the second after an HRR).",
+    note="Mutator alphabet of 10 operations; states = (client, hello shape after the edits); the real code is executed for every sequence (no separate model).")
